@@ -757,17 +757,52 @@ def D4(m, R):
                     return ref.name != member
             return None
 
+        def decide_local(t_, env):
+            """a test on a local whose value for this member is known: `x is None`, `x is not None`, `x`, `not x` with x bound to None or to an object"""
+            if isinstance(t_, ast.UnaryOp) and isinstance(t_.op, ast.Not):
+                v_ = decide_local(t_.operand, env)
+                return None if v_ is None else not v_
+
+            def known(e_):
+                if isinstance(e_, ast.Name) and e_.id in env:
+                    x_ = env[e_.id]
+                    if isinstance(x_, ast.Constant):
+                        return ('const', x_.value)
+                    if isinstance(x_, (ast.Attribute, ast.Call, ast.List, ast.Tuple, ast.Dict)):
+                        return ('object', None)
+                return None
+            if isinstance(t_, ast.Compare) and len(t_.ops) == 1 and isinstance(t_.ops[0], (ast.Is, ast.IsNot)) and const_val(t_.comparators[0], 0) is None:
+                k_ = known(t_.left)
+                if k_ is None:
+                    return None
+                isnone = k_ == ('const', None)
+                return isnone if isinstance(t_.ops[0], ast.Is) else not isnone
+            k_ = known(t_)
+            if k_ is not None:
+                if k_[0] == 'const':
+                    return bool(k_[1])
+                x_ = env[t_.id]
+                if isinstance(x_, (ast.List, ast.Tuple)):
+                    return bool(x_.elts)
+                if isinstance(x_, ast.Attribute):
+                    return True          # an enum member / function object
+            return None
+
         def specialise(stmts, member, env):
             """-> the Return reached for this member (or None when the list ends); Undecided when a test on component is not understood"""
             for st in stmts:
                 if isinstance(st, ast.If):
                     mentions = 'component' in names_in(st.test)
-                    v = decide(st.test, member) if mentions else None
+                    v = decide(st.test, member) if mentions else decide_local(st.test, env)
                     if v is None:
                         if mentions or any(isinstance(x, ast.Return) for x in ast.walk(st)):
                             if mentions:
                                 raise Undecided('dispatch test %s not understood' % short(st.test))
                             raise Undecided('a return under %s' % short(st.test))
+                        touched_ = {x.id for x in ast.walk(st) if isinstance(x, ast.Name) and isinstance(x.ctx, ast.Store)} | \
+                            {x.func.value.id for x in ast.walk(st) if isinstance(x, ast.Call) and isinstance(x.func, ast.Attribute) and isinstance(x.func.value, ast.Name)}
+                        if touched_ & set(env):
+                            raise Undecided('%s changes a value the result is built from under a test that is not decided' % short(st.test))
                         continue
                     r_ = specialise(st.body if v else st.orelse, member, env)
                     if r_ is not None:
